@@ -288,17 +288,5 @@ Definition parse_emd (l : bytes) : option emd_fields :=
   end.
 
 (* ---------- executable examples (checked by the kernel) ---------- *)
-Example ex_swhid_text :
-  print_core {| cs_ty := CDir; cs_id := [1; 255] |} = bs "swh:1:dir:01ff".
-Proof. vm_compute. reflexivity. Qed.
 
-Example ex_normalize_before_epoch :
-  normalize_date {| dt_us := (-1)%Z; dt_off := 19800000000%Z |} = {| dt_us := (-1000000)%Z; dt_off := 0%Z |}.
-Proof. vm_compute. reflexivity. Qed.
 
-Example ex_extid_manifest :
-  extid_git_object {| x_type := bs "hg-nodeid"; x_extid := [97; 10; 98]; x_target := {| cs_ty := CRev; cs_id := [0] |};
-                      x_version := 1%Z; x_payload_type := None; x_payload := None |}
-  = Ok (bs "extid 68" ++ [0] ++ bs "extid_type hg-nodeid" ++ [10] ++ bs "extid_version 1" ++ [10]
-        ++ bs "extid a" ++ [10; 32] ++ bs "b" ++ [10] ++ bs "target swh:1:rev:00" ++ [10]).
-Proof. vm_compute. reflexivity. Qed.
